@@ -7,6 +7,8 @@ coq/Model/C19.v relies on, read off the current source:
   c19_f_copy_deep      grid/grid.py     Grid.copy passes                   self._ds.copy(deep=True)
   c19_f_export_deep    grid/grid.py     to_xarray('ugrid') encodes         self._ds.copy(deep=True)
   c19_f_scrip_copies   io/_scrip.py     grid_area is built from            np.array(face_areas)
+  c19_f_scrip_area_copies  io/_scrip.py  reader: face_areas is built from   in_ds["grid_area"].values.copy()
+  c19_f_esmf_area_copies   io/_esmf.py   reader: face_areas is built from   in_ds["elementArea"].values.copy()
   c19_f_gdf_returns_copy / c19_f_poly_returns_copy / c19_f_line_returns_copy
                        grid/grid.py     every `return` of Grid.to_* hands out copy.deepcopy(...) (true) or the
                                         object itself (false)
@@ -155,6 +157,32 @@ def flag_scrip(tree):
     raise Broken("_encode_scrip: grid_area assignment not found")
 
 
+def flag_area(tree, func, src):
+    """out_ds["face_areas"] = xr.DataArray(<in_ds[src].values.copy()>, ...) in reader `func`"""
+    fn = find_func(tree, func)
+    for s in ast.walk(fn):
+        if isinstance(s, ast.Assign) and isinstance(s.targets[0], ast.Subscript) and isinstance(s.targets[0].slice, ast.Constant) \
+                and s.targets[0].slice.value == "face_areas":
+            v = s.value
+            if not (isinstance(v, ast.Call) and (v.args or v.keywords)):
+                raise Broken("%s: face_areas = %s" % (func, ast.dump(v)[:80]))
+            d = v.args[0] if v.args else [k.value for k in v.keywords if k.arg == "data"][0]
+            txt = ast.dump(d)
+            if src not in txt:
+                raise Broken("%s: face_areas not built from %s" % (func, src))
+            inner = is_copy_call(d, False)
+            if inner is not None and isinstance(inner, ast.Attribute) and inner.attr in ("values", "data"):
+                return True
+            if isinstance(d, ast.Call) and isinstance(d.func, ast.Attribute) and d.func.attr == "array":
+                return True
+            if isinstance(d, ast.Attribute) and d.attr in ("values", "data"):
+                return False
+            if isinstance(d, ast.Subscript):
+                return False
+            raise Broken("%s: face_areas data %s" % (func, txt[:80]))
+    raise Broken("%s: face_areas assignment not found" % func)
+
+
 def flag_returns(tree, meth):
     fn = find_func(tree, meth, cls="Grid")
     kinds = set()
@@ -185,6 +213,8 @@ def main():
                  ("c19_f_copy_deep", flag_copy(grid)),
                  ("c19_f_export_deep", flag_export(grid)),
                  ("c19_f_scrip_copies", flag_scrip(parse("uxarray/io/_scrip.py"))),
+                 ("c19_f_scrip_area_copies", flag_area(parse("uxarray/io/_scrip.py"), "_to_ugrid", "grid_area")),
+                 ("c19_f_esmf_area_copies", flag_area(parse("uxarray/io/_esmf.py"), "_read_esmf", "elementArea")),
                  ("c19_f_gdf_returns_copy", flag_returns(grid, "to_geodataframe")),
                  ("c19_f_poly_returns_copy", flag_returns(grid, "to_polycollection")),
                  ("c19_f_line_returns_copy", flag_returns(grid, "to_linecollection"))]
